@@ -269,6 +269,8 @@ def ref_persist(q):
     v = q.truth.get(val)
     if isnone is None and v is not None:
         isnone = not v
+    if isnone is None and not stored:
+        raise Mismatch("a node reference is handed out without writing the node and without deciding that it is an embedded one (value is None)")
     if isnone is None:
         raise Undecided("whether the node is stored by hash (value is not None)")
     if not isnone and not stored:
@@ -324,3 +326,258 @@ def hextab(ctx, pid):
             ctx.unsure(c, f.loc(), "only %d return paths were classified, %d were confirmed by hand" % (rows, min_rows))
         else:
             ctx.ok(c, f.loc(), "%d return paths: every returned value is the one the reference table gives for the path's conditions" % rows)
+
+
+# ---------------------------------------------------------------------------
+def _log(st):
+    rels, truth = [], {}
+    for t, pol, _ in st.log:
+        r = rel_norm(t, pol)
+        if r is not None:
+            rels.append(r)
+        else:
+            tt, pp = truth_norm(t, pol)
+            truth[tt] = pp
+    return rels, truth
+
+
+def _is_none(rels, truth, t):
+    """True / False / None: does the path know `t is None`"""
+    for op, l, r in rels:
+        if l == t and r == C(None):
+            if op in ("is", "=="):
+                return True
+            if op in ("isnot", "!="):
+                return False
+    return None
+
+
+@rule("PRUNESTATE", ["C06", "C05"])
+def prunestate(ctx, pid):
+    """The bookkeeping state of a pruning trie, as tables: what __init__ installs as the count table per
+    (ref_count given?, prune?); what the ref_count accessor hands out; how a mutation session opens
+    (_prune_on_success enter); which count entries _complete_pruning keeps or drops; what _set_raw_node
+    stores and returns; that the short-root case schedules exactly one prune."""
+    eng = S(ctx)
+    RC = ("attr", SELF, "_ref_count")
+    PEND = ("attr", SELF, "_pending_prune_keys")
+    ISP = ("attr", SELF, "is_pruning")
+    # ---- __init__
+    f = H(ctx, "__init__")
+    prm = {n_: ("p", n_) for n_ in f.all_params()}
+    if "prune" not in prm or "ref_count" not in prm:
+        raise AnalysisError("anchor vanished: parameters of HexaryTrie.__init__")
+    probs, seen = [], set()
+    for p, st in pq.states(ctx, f):
+        if p.exit[0] not in ("return", "fall"):
+            continue
+        rels, truth = _log(st)
+        none = _is_none(rels, truth, prm["ref_count"])
+        prune = truth.get(prm["prune"])
+        got = st.attrs.get("self._ref_count")
+        isp = st.attrs.get("self.is_pruning")
+        if isp != prm["prune"]:
+            probs.append("is_pruning is set to `%s`, not to the prune argument" % (tstr(isp) if isp else None))
+        if none is None or prune is None:
+            probs.append("the constructor finishes without distinguishing ref_count None / given and prune on / off")
+            continue
+        seen.add((none, prune))
+        if none and prune:
+            ok = got is not None and got[0] == "call" and "defaultdict" in got[1] and got[2] == (("g", "int"),) or (got is not None and got[0] == "call" and "defaultdict" in got[1] and len(got[2]) == 1 and "int" in str(got[2][0]))
+            w = "defaultdict(int)"
+        elif none:
+            ok, w = got == C(None), "None"
+        else:
+            ok, w = got == prm["ref_count"], "the given ref_count"
+        if not ok:
+            probs.append("ref_count %s, prune %s: the count table is `%s`, expected %s" % ("None" if none else "given", prune, tstr(got) if got else None, w))
+    c = "count-table-init:HexaryTrie.__init__"
+    if probs:
+        ctx.bad(c, f.loc(), probs[0], witness={"problems": sorted(set(probs))})
+    elif seen != {(True, True), (True, False), (False, True)}:
+        ctx.unsure(c, f.loc(), "constructor cases found: %s" % sorted(seen))
+    else:
+        ctx.ok(c, f.loc(), "pruning: a fresh defaultdict(int) or the given table; not pruning: None; is_pruning = prune")
+    # ---- ref_count accessor
+    f = H(ctx, "ref_count")
+    probs = []
+    n = 0
+    for p, st in pq.states(ctx, f):
+        rels, truth = _log(st)
+        none = _is_none(rels, truth, RC)
+        if p.exit[0] == "return":
+            n += 1
+            if st.ret != RC:
+                probs.append("ref_count returns `%s`, not the table the trie maintains" % tstr(st.ret)[:50])
+            if none is not False:
+                probs.append("the count table is handed out on a path that does not exclude None")
+        elif p.exit[0] == "raise" and pq.local_raise(p) is not None:
+            if none is not True:
+                probs.append("ref_count refuses although the trie tracks counts")
+    c = "reported-counts:HexaryTrie.ref_count"
+    if probs:
+        ctx.bad(c, f.loc(), probs[0])
+    elif not n:
+        ctx.bad(c, f.loc(), "ref_count never returns")
+    else:
+        ctx.ok(c, f.loc(), "returns self._ref_count exactly when it is not None")
+    # ---- session enter
+    f = H(ctx, "_prune_on_success")
+    probs = []
+    seen = set()
+    for p in ctx.X.paths(f):
+        # prefix up to the yield (or the raise before it)
+        evs = []
+        for ev in p.events:
+            if ev.k == "yield":
+                break
+            evs.append(ev)
+        reached_yield = any(ev.k == "yield" for ev in p.events)
+        from ..walk import Path
+        for st in eng.run(f, Path(evs, ("cut-at", None))):
+            rels, truth = _log(st)
+            isp = truth.get(ISP)
+            none = _is_none(rels, truth, PEND)
+            new = st.attrs.get("self._pending_prune_keys")
+            if not reached_yield:
+                if p.exit[0] == "raise" and pq.local_raise(p) is not None and not (isp is True and none is False):
+                    probs.append("the session is refused on a path that does not establish a pruning trie with a session already open")
+                if p.exit[0] == "raise" and pq.local_raise(p) is not None:
+                    seen.add("refuse")
+                continue
+            if isp is None:
+                probs.append("a session opens without looking at is_pruning")
+            elif isp:
+                if none is not True:
+                    probs.append("a pruning session opens although one is already open (pending prunes would be mixed)")
+                if not (new is not None and new[0] == "call" and "defaultdict" in new[1]):
+                    probs.append("a pruning session opens with the pending table `%s`, expected a fresh defaultdict(int)" % (tstr(new) if new else "left unset"))
+                seen.add("open")
+            else:
+                if new is not None and new != C(None):
+                    probs.append("a non-pruning trie gets a pending-prune table")
+                seen.add("plain")
+    c = "session-enter:HexaryTrie._prune_on_success"
+    if probs:
+        ctx.bad(c, f.loc(), probs[0], witness={"problems": sorted(set(probs))})
+    elif seen != {"open", "plain", "refuse"}:
+        ctx.unsure(c, f.loc(), "session cases found: %s" % sorted(seen))
+    else:
+        ctx.ok(c, f.loc(), "pruning + no open session: fresh pending table; pruning + open session: ValidationError; not pruning: nothing")
+    # ---- _complete_pruning: which count entries are kept
+    f = H(ctx, "_complete_pruning")
+    probs = []
+    n_del = n_keep = 0
+    for p, st in pq.states(ctx, f, unroll=1):
+        if p.exit[0] not in ("return", "fall"):
+            continue
+        rels, truth = _log(st)
+        def on(t, attr):
+            return isinstance(t, ast.Subscript) and isinstance(t.value, ast.Attribute) and t.value.attr == attr \
+                and isinstance(t.value.value, ast.Name) and t.value.value.id == f.self_name
+        dels = [ev for ev in st.events if ev.k == "stmt" and isinstance(ev.node, ast.Delete) and any(on(t, "_ref_count") for t in ev.node.targets)]
+        keeps = [ev for ev in st.events if ev.k == "stmt" and isinstance(ev.node, ast.Assign) and any(on(t, "_ref_count") for t in ev.node.targets)]
+        if not dels and not keeps:
+            continue
+        zero = [r for r in rels if r[0] in ("==", "!=") and r[2] == C(0)]
+        dbdel = any(ev.k == "stmt" and isinstance(ev.node, ast.Delete) and any(on(t, "db") for t in ev.node.targets) for ev in st.events)
+        if dels:
+            n_del += 1
+            if keeps:
+                probs.append("a count entry is both stored and removed on one path")
+            if any(r[0] == "!=" for r in zero) and not dbdel:
+                probs.append("a count entry is dropped although the remaining count is not zero")
+        else:
+            n_keep += 1
+            if dbdel:
+                probs.append("the count of a node that was just deleted from the db is kept")
+            if not any(r[0] == "!=" for r in zero):
+                probs.append("a count entry is kept on a path that does not establish a non-zero remaining count (zero entries make the reported table differ from the recount)")
+    c = "count-entries:HexaryTrie._complete_pruning"
+    if probs:
+        ctx.bad(c, f.loc(), probs[0], witness={"problems": sorted(set(probs))})
+    elif not (n_del and n_keep):
+        ctx.unsure(c, f.loc(), "paths that drop / keep a count entry: %d / %d" % (n_del, n_keep))
+    else:
+        ctx.ok(c, f.loc(), "an entry is removed when the node was deleted or its remaining count is zero, and kept with the remaining count otherwise")
+    # ---- _set_raw_node
+    f = H(ctx, "_set_raw_node")
+    cm = ctx.P.modules["trie.constants"]
+    BNH = C(ctx.P.const(cm, "BLANK_NODE_HASH"))
+    m = ("call", HEX + "._node_to_db_mapping", (SELF, ("p", f.params[1])), ())
+    key, val = ("sub", m, C(0)), ("sub", m, C(1))
+    probs = []
+    seen = set()
+    for p, st in pq.states(ctx, f):
+        if p.exit[0] != "return":
+            continue
+        rels, truth = _log(st)
+        blank = None
+        for op, l, r in rels:
+            if (l, r) in ((key, BLANK), (BLANK, key)) and op in ("==", "!="):
+                blank = op == "=="
+        stored = [eng.ev(ev.node, f, st) for ev in st.events if ev.k == "call" and ev.a == "ok" and isinstance(ev.node, ast.Call)
+                  and any(t.kind == "def" and t.func.name == "_set_db_value" for t in ctx.R.resolve_call(ev.node, f, count=False))]
+        if blank is None:
+            probs.append("a root is stored without checking for the blank node")
+            continue
+        if blank:
+            seen.add("blank")
+            if st.ret != BNH or stored:
+                probs.append("the blank root returns `%s`%s; expected BLANK_NODE_HASH and no write" % (tstr(st.ret)[:30], " after a db write" if stored else ""))
+            continue
+        none = _is_none(rels, truth, val)
+        if none is None:
+            probs.append("a non-blank root is stored without distinguishing embedded (value None) from hashed nodes")
+            continue
+        if none:
+            enc = ("call", "ext:rlp.encode", (key,), ())
+            encs = [a for a in _subterms(st.ret) if a[0] == "call" and a[1].startswith("ext:") and "keccak" in a[1]]
+            want_store = None
+            seen.add("short")
+            ok = st.ret[0] == "call" and "keccak" in st.ret[1] and len(st.ret[2]) == 1 and st.ret[2][0][0] == "call" and st.ret[2][0][2] == (key,)
+            if not ok:
+                probs.append("a short root returns `%s`, expected keccak(encode_raw(node))" % tstr(st.ret)[:60])
+            elif not any(s_[2][1:] == (st.ret, st.ret[2][0]) for s_ in stored):
+                probs.append("a short root is not stored under its keccak")
+        else:
+            seen.add("hashed")
+            if st.ret != key:
+                probs.append("a hashed root returns `%s`, expected its hash" % tstr(st.ret)[:60])
+            elif not any(s_[2][1:] == (key, val) for s_ in stored):
+                probs.append("a hashed root is not stored")
+    c = "root-store:HexaryTrie._set_raw_node"
+    if probs:
+        ctx.bad(c, f.loc(), probs[0], witness={"problems": sorted(set(probs))})
+    elif seen != {"blank", "short", "hashed"}:
+        ctx.unsure(c, f.loc(), "root cases found: %s" % sorted(seen))
+    else:
+        ctx.ok(c, f.loc(), "blank -> BLANK_NODE_HASH, no write; short -> stored under keccak(rlp); hashed -> stored under its hash")
+    # ---- every pending increment is += 1
+    bad = None
+    n = 0
+    for name in ("_prune_node", "_set_root_node"):
+        f = H(ctx, name)
+        for nd in ast.walk(f.node):
+            if isinstance(nd, (ast.AugAssign, ast.Assign)):
+                tg = nd.target if isinstance(nd, ast.AugAssign) else nd.targets[0]
+                if isinstance(tg, ast.Subscript) and isinstance(tg.value, ast.Attribute) and tg.value.attr == "_pending_prune_keys":
+                    n += 1
+                    if not (isinstance(nd, ast.AugAssign) and isinstance(nd.op, ast.Add) and isinstance(nd.value, ast.Constant) and nd.value.value == 1):
+                        bad = bad or (f, nd)
+    c = "pending-increment:HexaryTrie"
+    if bad:
+        ctx.bad(c, bad[0].loc(bad[1]), "`%s`: a scheduled prune must add exactly one pending reference" % ast.unparse(bad[1]))
+    elif n < 2:
+        ctx.unsure(c, "trie/hexary.py", "pending increments found: %d" % n)
+    else:
+        ctx.ok(c, "trie/hexary.py", "%d sites, each `_pending_prune_keys[key] += 1`" % n, nontrivial=False)
+
+
+def _subterms(t):
+    if isinstance(t, tuple) and t and isinstance(t[0], str):
+        yield t
+    if isinstance(t, tuple):
+        for x in t:
+            if isinstance(x, tuple):
+                yield from _subterms(x)
